@@ -192,7 +192,7 @@ def forbidden_token_scan():
     return hits
 
 
-def lean_phase(prop_id, modules, kernels=(), tier="quick"):
+def lean_phase(prop_id, modules, kernels=(), tier="quick", gen_proofs=(), extras=()):
     """Regenerate kernels, build, audit.  Returns LeanStatus.  Raises InfraError for framework defects."""
     import translate
     st = LeanStatus()
@@ -204,7 +204,7 @@ def lean_phase(prop_id, modules, kernels=(), tier="quick"):
             if k["kernel"] in kernels:      # a kernel this property's model does not use is none of its business
                 st.broken.append({"kind": "translator", **k})
         # 2. build: Cur, then bridges, then the property's theorems, then the driver
-        rc, out = lake(["build", "NpsVerif.Gen.Cur"])
+        rc, out = lake(["build", "NpsVerif.Gen.Cur"] + (["NpsVerif.Gen.CurW"] if gen_proofs else []))
         st.log += out
         if rc != 0:
             # the translator emitted something Lean rejects: caused by a source change (clean tree is tested)
@@ -218,10 +218,10 @@ def lean_phase(prop_id, modules, kernels=(), tier="quick"):
             raise InfraError("driver build failed:\n" + out[-4000:])
         # translator validation: generated kernel vs the real method on an integer box
         st.kernel_validation = None
-        if kernels:
+        if kernels or extras:
             import kernel_validate
             try:
-                n_eval, bad = kernel_validate.validate(set(kernels))
+                n_eval, bad = kernel_validate.validate(set(kernels) | set(extras))
             except InfraError:
                 raise
             except Exception as e:      # the real method could not even be called: the source changed shape
@@ -245,6 +245,18 @@ def lean_phase(prop_id, modules, kernels=(), tier="quick"):
                                   "detail": out[-3000:]})
             elif k in tr["changed"]:
                 st.kernels_changed.append(k)
+        # theorems stated directly about the generated kernels (re-proved against the current source)
+        gen_ok = []
+        if not bridge_broken:
+            for mod in gen_proofs:
+                rc, out = lake(["build", mod])
+                st.log += out
+                if rc != 0:
+                    st.ok = False
+                    st.broken.append({"kind": "generated-proof", "module": mod,
+                                      "detail": "a theorem about the kernels generated from the current source no longer checks:\n" + out[-3000:]})
+                else:
+                    gen_ok.append(mod)
         if bridge_broken:
             st.ok = False
         else:
@@ -256,7 +268,7 @@ def lean_phase(prop_id, modules, kernels=(), tier="quick"):
             hits = forbidden_token_scan()
             if hits:
                 raise InfraError("forbidden tokens in Lean sources:\n" + "\n".join(hits))
-            audit_mods = list(modules) + sorted({f"NpsVerif.Gen.Bridge.{BRIDGE_MODULE.get(k, k)}" for k in kernels})
+            audit_mods = list(modules) + gen_ok + sorted({f"NpsVerif.Gen.Bridge.{BRIDGE_MODULE.get(k, k)}" for k in kernels})
             rc, out = _run(["lake", "env", "lean", "--run", "Audit.lean"] + audit_mods, cwd=LEAN_DIR)
             if rc != 0:
                 raise InfraError("axiom audit failed:\n" + out[-3000:])
@@ -279,7 +291,7 @@ def lean_phase(prop_id, modules, kernels=(), tier="quick"):
             if not st.theorems:
                 raise InfraError("audit found no property theorems in " + " ".join(modules))
             if tier == "thorough":
-                rc, out = _run(["lake", "env", "leanchecker"] + modules, cwd=LEAN_DIR, timeout=3600)
+                rc, out = _run(["lake", "env", "leanchecker"] + modules + gen_ok, cwd=LEAN_DIR, timeout=3600)
                 st.log += out
                 if rc != 0:
                     raise InfraError("leanchecker rejected the compiled theorems:\n" + out[-3000:])
@@ -426,7 +438,8 @@ def _main(prop, pid, tier, seed, replay, t0):
 
     # ---------------- Lean phase
     kernels = effective_kernels(prop)
-    st = lean_phase(pid, prop.LEAN_MODULES, kernels, tier)
+    st = lean_phase(pid, prop.LEAN_MODULES, kernels, tier, gen_proofs=getattr(prop, "GEN_PROOFS", ()),
+                    extras=getattr(prop, "KERNEL_EXTRAS", ()))
 
     # ---------------- cases
     if replay:
